@@ -4,7 +4,9 @@ package main
 // path's SMT script (assumptions and checks in program order).
 
 import (
+	"encoding/hex"
 	"fmt"
+	"sync"
 	"go/types"
 	"hash/fnv"
 	"sort"
@@ -324,28 +326,35 @@ func (st *State) heapAt(snap *Snapshot, name, sort string) Term {
 
 // ---- string literals ---------------------------------------------------
 
+// String literals are global constants lit_<hex> (content-addressed), so
+// theory axioms can name them; their declarations and defining facts are
+// emitted by buildScript for every literal a query mentions.
+var (
+	litMu    sync.Mutex
+	litTable = map[string]string{} // symbol -> content
+)
+
+func litSym(s string) string {
+	var sym string
+	if len(s) <= 24 {
+		sym = "lit_" + hex.EncodeToString([]byte(s))
+	} else {
+		h := fnv.New64a()
+		h.Write([]byte(s))
+		sym = fmt.Sprintf("lit_h%016x_%d", h.Sum64(), len(s))
+	}
+	litMu.Lock()
+	litTable[sym] = s
+	litMu.Unlock()
+	return sym
+}
+
 func (st *State) strLit(s string) Term {
 	if s == "" {
 		return BEmpty
 	}
-	if sym, ok := st.lits[s]; ok {
-		return mkTerm(sym, SortBytes)
-	}
-	h := fnv.New32a()
-	h.Write([]byte(s))
-	sym := fmt.Sprintf("lit%d_%08x", len(st.lits), h.Sum32())
+	sym := litSym(s)
 	st.lits[s] = sym
-	st.declare(sym, SortBytes)
-	st.emit(fmt.Sprintf("(assert (= (b.len %s) %d))", sym, len(s)))
-	if len(s) <= 80 {
-		for i := 0; i < len(s); i++ {
-			st.emit(fmt.Sprintf("(assert (= (b.at %s %d) %d))", sym, i, s[i]))
-		}
-	}
-	for _, o := range st.litsyms {
-		st.emit(fmt.Sprintf("(assert (not (= %s %s)))", sym, o))
-	}
-	st.litsyms = append(st.litsyms, sym)
 	return mkTerm(sym, SortBytes)
 }
 
